@@ -151,14 +151,14 @@ Print Assumptions C01_crash_keeps_simulation.
    logged) or the lock of the last complete lock-WAL entry *)
 Theorem C01_restart_keeps_simulation :
   forall (n : nat) (byz : nat -> bool) (blocks : list blk) (i : nat),
-    i < n -> byz i = false ->
+    (i < n)%nat -> byz i = false ->
   forall E : list vote,
     (forall v, In v E ->
        (0 <= v_from v < Z.of_nat n)%Z /\ (0 <= v_round v)%Z /\ v_from v <> Z.of_nat i) ->
   forall (T0 : TM.state) (K0 : vote -> Prop),
     (forall x, In x blocks -> (1 <= b_parts x)%N) ->
   forall delay : bool,
-    3 * TM.countn byz n < n ->
+    (3 * TM.countn byz n < n)%nat ->
   forall s : st,
     Proofs_ConsensusNet_Run.P n byz blocks i E T0 K0 s ->
     Proofs_ConsensusNet_Run.P n byz blocks i E T0 K0 (restart n (Z.of_nat i) blocks delay s).
